@@ -52,12 +52,17 @@ def check(repo, col, tier):
                 col.bad("R-C14-cover", fi_init, f"init_state key {k}",
                         f"init_state returns `{k}` which update_states does not evolve", node=fi_init.node)
                 continue
-            x0, x1 = rat_of(init[k]), rat_of(upd[k])
-            col.check(x1.eq(x0), "R-C14-fixpoint", fi_init, f"fixed point of {k}",
-                      "a further update at the same voltage leaves the initial state unchanged for every dt",
-                      f"init_state value of `{k}` is not a fixed point of update_states: one more step at the "
-                      f"same voltage changes it", node=_ret_value(fi_init.node, k),
-                      sides={"init_state": repr(x0)[:400], "after one update": repr(x1)[:400]})
+            from sa.algebra import as_pw
+            p0, p1 = as_pw(init[k]), as_pw(upd[k])
+            for conds, x1 in p1.pieces:
+                sub = p0.on(conds).pieces
+                for c0, x0 in sub:
+                    reg = kin.region_name(ev, conds | c0)
+                    col.check(x1.eq(x0), "R-C14-fixpoint", fi_init, f"fixed point of {k} [{reg}]",
+                              "a further update at the same voltage leaves the initial state unchanged for every dt",
+                              f"init_state value of `{k}` is not a fixed point of update_states: one more step at the "
+                              f"same voltage changes it", node=_ret_value(fi_init.node, k),
+                              sides={"init_state": repr(x0)[:400], "after one update": repr(x1)[:400]})
     _rows(repo, col)
 
 
